@@ -19,11 +19,13 @@ func runC16(c *Ctx) {
 	// "a status naming its outcome": the stages run in order — decrypt, then parse/validate, then send — so the first failing stage names the status
 	ruleSendGuard(c, a, "STAGES")
 	ruleVerdictKept(c, a, "STAGES")
+	ruleSendFailure(c, a, "STAGES")
 	ruleBufSize(c, a, "BUFSIZE") // "its wire size": a datagram cut short by a small buffer is reported with the wrong size
 	ruleClientReport(c, a)
 	ruleTargetReport(c, a)
 	ruleArityAll(c, "ARITY")
 	ruleDirWiring(c, "WIRING")
+	ruleServiceOptions(c, "WIRING", "service.WithMetrics", "its datagrams are relayed but never reported")
 }
 
 // perIteration: the cell behind load v is allocated inside a loop body of its function (fresh per iteration), or v is not a cell at all.
@@ -770,4 +772,73 @@ func ruleVerdictKept(c *Ctx, a *udpAnchors, rule string) {
 		}
 	}
 	c.Floor(rule, "returns on the validator's failure edge", n, 1)
+}
+
+// ruleSendFailure: "a status naming its outcome" — the error of the send to the target is tested, and from the send the function
+// can return "no error" only over the success edge of that test. (A shadowed err, or a test of another variable, reports a
+// datagram that was never relayed as OK with a payload size.)
+func ruleSendFailure(c *Ctx, a *udpAnchors, rule string) {
+	p := c.P
+	for i, s := range a.sends {
+		f := s.Parent()
+		key := fmt.Sprintf("send-to-target#%d", i)
+		ei := errorResultIndex(s.Call.Signature())
+		if ei < 0 {
+			continue
+		}
+		succ, fail := p.SuccessEdges(f, []ssa.CallInstruction{s}, ei)
+		c.CheckAt(rule, key+":send-error-is-tested", s, len(succ) > 0 && len(fail) > 0, "the error returned by the send to the target is never tested")
+		if len(succ) == 0 {
+			continue
+		}
+		reach := eng.ReachBlocks(s.Block(), nil)
+		reach[s.Block()] = true
+		behindBlock := func(b *ssa.BasicBlock) bool { return !reach[b] || eng.CutFrom(s.Block(), b, succ) }
+		var okVal func(v ssa.Value, r *ssa.Return, d int) bool
+		okVal = func(v ssa.Value, r *ssa.Return, d int) bool {
+			if p.DefinitelyNonNil(v, r) {
+				return true
+			}
+			if ph, isPhi := v.(*ssa.Phi); isPhi && d < 8 {
+				for k, ev := range ph.Edges {
+					pred := ph.Block().Preds[k]
+					if succ[eng.Edge{From: pred, To: ph.Block()}] || behindBlock(pred) {
+						continue
+					}
+					if !okVal(ev, r, d+1) {
+						return false
+					}
+				}
+				return true
+			}
+			if ins, isIns := v.(ssa.Instruction); isIns && ins.Block() != nil && ins.Parent() == f {
+				if _, isC := v.(*ssa.Const); !isC {
+					return behindBlock(ins.Block())
+				}
+			}
+			return false
+		}
+		nr := 0
+		for j, r := range eng.Returns(f) {
+			if !reach[r.Block()] || r.Block().Comment == "recover" {
+				continue
+			}
+			for k, res := range r.Results {
+				tn := eng.TypeName(res.Type())
+				if tn != "net.ConnectionError" && tn != "error" {
+					continue
+				}
+				nr++
+				v := res
+				if k == 0 {
+					v = retVal(p, r)
+				} else if sv := p.ReachingStore(res, r); sv != nil {
+					v = sv
+				}
+				good := behindBlock(r.Block()) || okVal(v, r, 0)
+				c.CheckAt(rule, fmt.Sprintf("%s:failure-is-returned:return#%d", key, j), r, good, "after the send to the target this return can report \"no error\" on a path that does not cross the success edge of the send's error test (the test looks at another variable, e.g. a shadowed err): a datagram that was not relayed is reported as OK")
+			}
+		}
+		c.Floor(rule, "error-typed returns after "+key, nr, 1)
+	}
 }
